@@ -81,8 +81,57 @@ let lookup_of_tok t = List.map (fun e -> match String.index_opt e '=' with
     | Some i -> (z_of_string (String.sub e 0 i), bytes_of_tok (String.sub e (i + 1) (String.length e - i - 1)))
     | None -> failwith ("bad lookup entry " ^ e)) (split_on ',' t)
 
+(* content tokens (as printed by content_tok) back to a content; entries are cut at the sizes of the generated module *)
+let rec chunks w l =
+  if l = [] then [] else
+  let rec take n l = if n <= 0 then ([], l) else (match l with [] -> ([], []) | x :: r -> let (a, b) = take (n - 1) r in (x :: a, b)) in
+  let (a, b) = take w l in a :: chunks w b
+let coq_of_string s =
+  let ascii_of_char c = let n = Char.code c in let b i = (n lsr i) land 1 = 1 in Ascii (b 0, b 1, b 2, b 3, b 4, b 5, b 6, b 7) in
+  List.fold_right (fun c acc -> String (ascii_of_char c, acc)) (explode s) EmptyString
+let content_of_tok t =
+  let body = String.sub t 1 (String.length t - 1) in
+  let parts = String.split_on_char '/' body in
+  match t.[0], parts with
+  | 'L', _ -> CLookup (lookup_of_tok body)
+  | 'Z', _ -> CLasZip (bytes_of_tok body)
+  | 'E', [_; h] -> CExtra (chunks (int_of_nat eb_struct_size) (bytes_of_tok h))
+  | 'W', _ -> CWave (bytes_of_tok body)
+  | 'G', [h; c; _; ks] -> CGeoKeys { gk_head = bytes_of_tok h; gk_count = z_of_string c; gk_keys = chunks (int_of_nat gk_entry_size) (bytes_of_tok ks) }
+  | 'D', [_; h] -> CDoubles (chunks (int_of_nat double_size) (bytes_of_tok h))
+  | 'A', _ -> CAscii (List.map bytes_of_tok (split_on ',' body))
+  | 'T', _ -> CWkt (bytes_of_tok body)
+  | _ -> failwith ("bad content " ^ t)
+(* an item of a list a user holds: k<record> went through the reader; e<class>:<uid>:<rid>:<desc>:<content> is a parsed
+   record saying <content>; anything else a raw record *)
+let item_of_tok t =
+  if String.length t > 0 && t.[0] = 'k' then vlr_factory (vlr_of_tok (String.sub t 1 (String.length t - 1)))
+  else if String.length t > 0 && t.[0] = 'e' then
+    (match String.split_on_char ':' (String.sub t 1 (String.length t - 1)) with
+     | [cls; u; r; d; c] -> KKnown (coq_of_string cls, bytes_of_tok u, z_of_string r, bytes_of_tok d, content_of_tok c)
+     | _ -> failwith ("bad item " ^ t))
+  else KRaw (vlr_of_tok t)
+let items_of_tok t = List.map item_of_tok (split_on '|' t)
+
 let run line =
   match String.split_on_char ' ' (String.trim line) with
+  | ["op"; m; l; g] ->
+      (* a method / property setter of LasHeader on a header whose VLR list is l; g = the extra-bytes record generated
+         from the point format (none: no extra dimensions) *)
+      recs_tok (header_op (coq_of_string m) (items_of_tok l) (if g = "none" then None else Some (item_of_tok g)))
+  | ["edit"; t] ->
+      (* a parsed record saying the given content: how it shows (with its serialisation), what the next reader hands out *)
+      let k = item_of_tok t in
+      rec_tok k ^ " " ^ (match reread k with Ok k2 -> rec_tok k2 | Err er -> "err " ^ err_name er)
+  | ["wk"; e; l] ->
+      (* a list a user holds written by VLRList.write_to and read again *)
+      let ext = bool_of_tok e in
+      let kl = items_of_tok l in
+      (match write_known ext kl with
+       | Err er -> "err " ^ err_name er
+       | Ok bs -> (match read_known ext (nat_of_int (List.length kl)) bs with
+           | Err er -> "rerr " ^ err_name er
+           | Ok (ks, _) -> "ok " ^ hex bs ^ " " ^ recs_tok ks))
   | ["factory"; v] -> rec_tok (vlr_factory (vlr_of_tok v))
   | ["rt"; e; l] ->
       let ext = bool_of_tok e in
@@ -107,9 +156,7 @@ let run line =
   | ["file"; hs; v14; sn; se; vl; npts; evl] ->
       (* one generation of a file: the lists a user holds (k-prefixed records went through the reader) written by a
          writer whose header announces sn EVLRs at se, then read *)
-      let kv t = if String.length t > 0 && t.[0] = 'k' then vlr_factory (vlr_of_tok (String.sub t 1 (String.length t - 1)))
-                 else KRaw (vlr_of_tok t) in
-      let kl t = List.map kv (split_on '|' t) in
+      let kl t = items_of_tok t in
       let hsz = z_of_string hs in
       let pts = List.init (int_of_string npts) (fun _ -> Z0) in
       let stale = { l_nvlr = Z0; l_offset = Z0; l_nevlr = z_of_string sn; l_estart = z_of_string se } in
@@ -139,9 +186,7 @@ let run line =
   | ["append"; hs; v14; nv; off; ne; es; npts; b; np; evl] ->
       (* an append session on the file (located as above, npts bytes of points): np = the bytes appended, evl = the
          list the appender holds at close (k-prefixed records were read from the file) or none *)
-      let kv t = if String.length t > 0 && t.[0] = 'k' then vlr_factory (vlr_of_tok (String.sub t 1 (String.length t - 1)))
-                 else KRaw (vlr_of_tok t) in
-      let kl t = List.map kv (split_on '|' t) in
+      let kl t = items_of_tok t in
       let hsz = z_of_string hs in
       let loc = { l_nvlr = z_of_string nv; l_offset = z_of_string off; l_nevlr = z_of_string ne; l_estart = z_of_string es } in
       (match append_file hsz (bool_of_tok v14) loc (bytes_of_tok b) (z_of_string npts) (bytes_of_tok np)
